@@ -280,6 +280,8 @@ def cases(tier, rng):
 
 
 def search(tier, rng):
+    for t, n in TYPES:
+        yield J('p_mock_default', t)
     yield from point_lists(rng, 'p_mock_points', 150 if tier == 'quick' else 2000)
     n_hist = 1500 if tier == 'quick' else 20000
     for i in range(n_hist):
@@ -347,7 +349,7 @@ TRUSTED = ['modelled, not verified: core::char::to_digit / from_digit / to_ascii
            'Debug: the header / "(n empty rows skipped)" text is modelled (debug_string) and compared by correspondence; the theorems speak '
            'about the rows (debug_rows)']
 PARTIAL = []
-LEVEL_TEXT = ('Proof: 42 Coq theorems over the Gallina model of MockDisplay (coq/Model/Mockdisplay.v: the 4096-cell array with the index '
+LEVEL_TEXT = ('Proof: 43 Coq theorems over the Gallina model of MockDisplay (coq/Model/Mockdisplay.v: the 4096-cell array with the index '
               'arithmetic as written, both flags, every panic as a value). After ANY operation history that runs to its end get_pixel(p) is the '
               'content given by the last event at p and None elsewhere and outside the display (induction over the history); drawing panics '
               'exactly at the first pixel outside the display / drawn twice while the respective check is on, and with no other panic kind; '
